@@ -52,6 +52,13 @@ ARCH = {
     'banner-qmark': {'banner': 'SSH-2.0-OpenSSH_9.3 build?one', 'kex': ['curve25519-sha256'], 'key': ['ssh-ed25519'], 'hostkeys': HK_ED},
     'banner-199':   {'banner': 'SSH-1.99-OpenSSH_9.3', 'kex': ['curve25519-sha256'], 'key': ['ssh-ed25519'], 'hostkeys': HK_ED},
     'banner-p1':    {'banner': 'SSH-2.0-OpenSSH_9.3p1 build?one', 'kex': ['curve25519-sha256'], 'key': ['ssh-ed25519'], 'hostkeys': HK_ED},
+    # peers whose answers take their time: between a request and its reply the other workers run
+    'clean-slow':   {'kex': ['sntrup761x25519-sha512@openssh.com', 'curve25519-sha256'], 'key': ['ssh-ed25519'], 'enc': ['aes256-gcm@openssh.com', 'aes128-ctr'], 'mac': ['hmac-sha2-256-etm@openssh.com'], 'hostkeys': HK_ED, 'latency': True},
+    'smallca-slow': {'kex': ['curve25519-sha256'], 'key': ['ssh-ed25519-cert-v01@openssh.com', 'ssh-ed25519'], 'hostkeys': dict({'ssh-ed25519-cert-v01@openssh.com': {'t': 'cert', 'kind': 'ssh-ed25519-cert-v01@openssh.com', 'ca': {'t': 'rsa', 'bits': 1024}}}, **HK_ED), 'latency': True},
+    'ecdsaca-slow': {'kex': ['curve25519-sha256'], 'key': ['ssh-rsa-cert-v01@openssh.com', 'ssh-ed25519'], 'hostkeys': dict({'ssh-rsa-cert-v01@openssh.com': {'t': 'cert', 'kind': 'ssh-rsa-cert-v01@openssh.com', 'bits': 2048, 'ca': {'t': 'ecdsa', 'curve': 'nistp256'}}}, **HK_ED), 'latency': True},
+    'rsa1024-slow': {'kex': ['curve25519-sha256'], 'key': ['ssh-rsa', 'ssh-ed25519'], 'hostkeys': dict(rsa_hk(1024), **HK_ED), 'latency': True},
+    'gex1024-slow': {'banner': 'SSH-2.0-dropbear_2020.81', 'kex': ['curve25519-sha256', 'diffie-hellman-group-exchange-sha256'], 'key': ['ssh-ed25519'], 'hostkeys': HK_ED, 'moduli': [1024], 'gex_style': 'roundup', 'latency': True},
+    'gex4096-slow': {'banner': 'SSH-2.0-dropbear_2020.81', 'kex': ['curve25519-sha256', 'diffie-hellman-group-exchange-sha256'], 'key': ['ssh-ed25519'], 'hostkeys': HK_ED, 'moduli': [4096], 'gex_style': 'roundup', 'latency': True},
     'ssh1':       {'proto': 1},
     'refuse':     None,
 }
